@@ -13,6 +13,48 @@ def target_info_known(cmd):
             and cmd.instance_status is not None)
 
 
+def start_timed_out_result(c):
+    """statement: TIMED_OUT iff the STARTING acknowledgement is not seen within the tick margin, or RUNNING within that
+    margin plus startsecs; RUNNING is SUCCESS unless an exit is awaited (documented exception: IN_PROGRESS unbounded)"""
+    st = c.process.info_map[c.identifier]['state']
+    seq = c.instance_status.times.remote_sequence_counter
+    late = seq > c.request_sequence_counter + (c._wait_ticks if st in STARTING_LIKE else c.minimum_ticks)
+    return ite(st == ProcessStates.RUNNING,
+               ite(c.process.rules.wait_exit and not c.ignore_wait_exit, ProcessRequestResult.IN_PROGRESS, ProcessRequestResult.SUCCESS),
+               ite(late, ProcessRequestResult.TIMED_OUT, ProcessRequestResult.IN_PROGRESS))
+
+
+def stop_timed_out_result(c):
+    st = c.process.info_map[c.identifier]['state']
+    seq = c.instance_status.times.remote_sequence_counter
+    late = seq > c.request_sequence_counter + (c._wait_ticks if st == ProcessStates.STOPPING else c.minimum_ticks)
+    return ite(st in STOPPED_LIKE, ProcessRequestResult.SUCCESS,
+               ite(late, ProcessRequestResult.TIMED_OUT, ProcessRequestResult.IN_PROGRESS))
+
+
+def timed_out_result(c):
+    return ite(isinstance(c, ProcessStartCommand), start_timed_out_result(c), stop_timed_out_result(c))
+
+
+@contract('commander:ProcessCommand.timed_out', props=[])
+class AbstractTimedOut:
+    """abstract method (the body raises NotImplementedError; ProcessCommand itself is never instantiated): used where the
+    call is dispatched dynamically (ApplicationJobs.check).  Each override is PROVED against the same formula:
+    StartTimedOut.post_matches_abstract / StopTimedOut.post_matches_abstract."""
+    assumed = True
+    raises = ()
+    returns = 'Tuple[ProcessStates, ProcessRequestResult, float]'
+
+    def modifies(self):
+        return []
+
+    def pre_target(self):
+        return target_info_known(self)
+
+    def post_result(self, result):
+        return result[1] == timed_out_result(self) and result[2] == self.process.info_map[self.identifier]['event_time']
+
+
 @contract('commander:ProcessStartCommand.timed_out', props=['C10', 'C03'])
 class StartTimedOut:
     """statement: 'if the expected STARTING acknowledgement is not seen within the tick margin, or RUNNING within that
@@ -35,6 +77,9 @@ class StartTimedOut:
         return (result[1] == ProcessRequestResult.TIMED_OUT) == (
             (waiting_running and seq > self.request_sequence_counter + self._wait_ticks)
             or (waiting_starting and seq > self.request_sequence_counter + self.minimum_ticks))
+
+    def post_matches_abstract(self, result):
+        return result[1] == start_timed_out_result(self)
 
     def post_running(self, result):
         info = self.process.info_map[self.identifier]
@@ -77,6 +122,9 @@ class StopTimedOut:
             or (st != ProcessStates.STOPPING and st not in STOPPED_LIKE
                 and seq > self.request_sequence_counter + self.minimum_ticks))
 
+    def post_matches_abstract(self, result):
+        return result[1] == stop_timed_out_result(self)
+
     def post_already_stopped(self, result):
         st = self.process.info_map[self.identifier]['state']
         return implies(st in STOPPED_LIKE, result[1] == ProcessRequestResult.SUCCESS and result[0] == st)
@@ -89,3 +137,75 @@ class StopTimedOut:
 
     def post_event_time(self, result):
         return result[2] == self.process.info_map[self.identifier]['event_time']
+
+
+# ------------------------------------------------------------------------------------------ clause 3: forced state
+from contracts.assumed_repo import (reentrancy_discipline, job_discipline, reports_untouched, in_plan,
+                                    other_command_lists_untouched)
+
+
+def forced_payload(payload, process, identifier, event_time, forced_state, reason):
+    return ('forced' in payload and payload['forced'] and payload['state'] == forced_state
+            and payload['spawnerr'] == reason and payload['identifier'] == identifier
+            and payload['now_monotonic'] == event_time and payload['group'] == process.application_name
+            and payload['name'] == process.process_name and not payload['expected'])
+
+
+@contract('listener:SupervisorListener.force_process_state', props=['C10'])
+class ForceProcessState:
+    """statement: 'the job is abandoned, the process is reported FATAL (start) or STOPPED (stop) with an explanatory
+    reason on all instances': the payload carries `forced`, the forced state, the reason, the target identifier and the
+    time of the last event received; it is applied locally (fsm) and then published to the other instances.
+    RE-ENTRANT: see the assumed contract of FiniteStateMachine.on_process_state_event."""
+    raises = ('KeyError',)
+    effect = 'force_process_state'
+    types = {'forced_state': 'ProcessStates'}
+
+    def pre_local_status_exists(self):
+        """shape validity (DESIGN 1.4): the local identifier is a key of context.instances"""
+        return self.supvisors.context.local_identifier in self.supvisors.context.instances
+
+    def post_effect_applied_locally_then_published(self, process, identifier, event_time, forced_state, reason, old):
+        local = effect_at('fsm.on_process_state_event', 0)
+        sent = effect_at('send_process_state_event', 0)
+        once = count_effects('fsm.on_process_state_event') == 1 and count_effects('send_process_state_event') == 1
+        return (local[0] is old.self.supvisors.context.local_status
+                and forced_payload(local[1], old.process, identifier, event_time, forced_state, reason)
+                and forced_payload(sent[0], old.process, identifier, event_time, forced_state, reason)) if once else False
+
+    def post_discipline(self, old):
+        return reentrancy_discipline(old)
+
+    def exc_KeyError_effect_none(self):
+        return no_effect()
+
+    def exc_KeyError_unknown_target(self, identifier, old):
+        """only when the target identifier is not (or no longer) known to the mapper; nothing is emitted then"""
+        return identifier != '' and identifier not in old.self.supvisors.mapper.instances
+
+
+@contract('commander:ApplicationJobs.fail_command', props=['C10', 'C03', 'C09'])
+class FailCommand:
+    """statement: 'the process is reported FATAL (start) or STOPPED (stop) with an explanatory reason': exactly one
+    listener.force_process_state(process, identifier, event_time, FATAL | STOPPED, reason).
+    RE-ENTRANT call-out: as seen from the job, job_discipline(self) and reports_untouched hold afterwards."""
+    variants = ['ApplicationStartJobs', 'ApplicationStopJobs']
+    raises = ('KeyError',)
+    effect = 'fail_command'
+
+    def pre_root(self):
+        """shape validity: one Supvisors root, whose local identifier is a key of context.instances"""
+        return (self.supvisors.listener.supvisors is self.supvisors
+                and self.supvisors.context.local_identifier in self.supvisors.context.instances)
+
+    def post_effect_forced_state(self, process, identifier, event_time, reason, old):
+        e = effect_at('force_process_state', 0)
+        expected = ProcessStates.FATAL if isinstance(self, ApplicationStartJobs) else ProcessStates.STOPPED
+        return (e[0] is process and e[1] == identifier and e[2] == event_time and e[3] == expected
+                and e[4] == reason) if count_effects('force_process_state') == 1 else False
+
+    def post_discipline(self, old):
+        return job_discipline(self, old)
+
+    def exc_KeyError_unknown_target(self, identifier, old):
+        return identifier != '' and identifier not in old.self.supvisors.mapper.instances
